@@ -19,6 +19,24 @@ def ANY_TYPE : String := "any"
 
 def tooDeep : String := "Error: Type is circular or nested too deeply to be resolved."
 
+/-- `enter_type_resolution` at nesting depth `FUEL - (fuel + 1)`: a resolution that starts (depth 0) forgets an earlier give-up;
+    a nested one is skipped (`none`) once the resolution in progress has given up -/
+def enterRes (fuel : Nat) (st : St) : Option St :=
+  if fuel + 1 == 64 then some { st with typeGaveUp := false }
+  else if st.typeGaveUp then none else some st
+
+theorem enterRes_ok (fuel : Nat) (st : St) (h : st.typeGaveUp = false) : enterRes fuel st = some st := by
+  unfold enterRes
+  split
+  · cases st; simp_all
+  · simp [h]
+
+@[simp] theorem err_typeGaveUp (st : St) (m : String) : (st.err m).typeGaveUp = st.typeGaveUp := rfl
+
+/-- the depth limit is hit: reported once per resolution, which is then unwound -/
+def giveUp (st : St) : St :=
+  if st.typeGaveUp then st else { st.err tooDeep with typeGaveUp := true }
+
 /-- runtime type entry: `some "String"` … or `none` for the `null` value -/
 abbrev RT := Option String
 
@@ -73,8 +91,11 @@ def nUnionType (ts : List Node) : Node := .mk .tsUnion [] [nList ts]
 /-- `resolve_string_or_union_strings` -/
 def resolveStrings (fuel : Nat) (st : St) (ty : Node) : List String × St :=
   match fuel with
-  | 0 => ([], st.err tooDeep)
+  | 0 => ([], giveUp st)
   | fuel + 1 =>
+    match enterRes fuel st with
+    | none => ([], st)
+    | some st =>
     match ty with
     | .mk .tsLitType _ [.mk .str (v :: _) _] => ([v], st)
     | .mk .tsUnion _ [.mk .list _ types] =>
@@ -135,8 +156,11 @@ def natOfNumAtom (s : String) : Nat :=
 /-- `resolve_indexed_access` -/
 def resolveIndexed (fuel : Nat) (st : St) (obj index : Node) : Option Node × St :=
   match fuel with
-  | 0 => (none, st.err tooDeep)
+  | 0 => (none, giveUp st)
   | fuel + 1 =>
+    match enterRes fuel st with
+    | none => (none, st)
+    | some st =>
     let pack (props : List Node) : Option Node :=
       match props with
       | [p] => some p
@@ -172,8 +196,11 @@ def resolveIndexed (fuel : Nat) (st : St) (obj index : Node) : Option Node × St
 /-- `resolve_type_elements` -/
 def resolveElements (fuel : Nat) (st : St) (ty : Node) : List Node × St :=
   match fuel with
-  | 0 => ([], st.err tooDeep)
+  | 0 => ([], giveUp st)
   | fuel + 1 =>
+    match enterRes fuel st with
+    | none => ([], st)
+    | some st =>
     let unresolvable := "Error: Unresolvable type."
     match ty with
     | .mk .tsTypeLit _ [.mk .list _ members] => (refineMembers members, st)
@@ -248,8 +275,11 @@ def memberRuntime (members : List Node) : List RT :=
 /-- `infer_runtime_type` -/
 def inferRuntime (fuel : Nat) (st : St) (ty : Node) : List RT × St :=
   match fuel with
-  | 0 => ([], st.err tooDeep)
+  | 0 => ([], giveUp st)
   | fuel + 1 =>
+    match enterRes fuel st with
+    | none => ([], st)
+    | some st =>
     match ty with
     | .mk .tsKeyword [k] _ =>
       (if k == "string" then [some "String"] else if k == "number" then [some "Number"]
